@@ -119,6 +119,60 @@ func (g *healGoal) premise() (bool, string) {
 			return false, fmt.Sprintf("replica %d operates under voting set %v of which only %d run", id, voting, up)
 		}
 	}
+	// A witness votes but can neither lead nor hand out payloads. When the durable log of a
+	// running witness is ahead of the log of every running regular voter and the entries in
+	// question exist (with payload) only on a replica that was removed from the shard and
+	// stopped, no election can succeed and nobody can supply the entries: inherent to witnesses
+	// (the removed replica committed them with the witness's acknowledgement), C17 promises
+	// nothing. If the entries exist on no replica at all (they were never persisted by their
+	// leader) the premise holds and the shard has to make progress.
+	for _, wid := range s.order {
+		w := s.replicas[wid]
+		if !w.alive || w.removed || !w.cfg.IsWitness {
+			continue
+		}
+		wl := s.mon.log(w)
+		if wl.last == 0 {
+			continue
+		}
+		wt := wl.ents[wl.last].Term
+		ahead := true
+		voters := 0
+		for _, id := range s.order {
+			r := s.replicas[id]
+			if !r.alive || r.removed || r.cfg.IsWitness || r.cfg.IsNonVoting {
+				continue
+			}
+			l := s.mon.log(r)
+			if l.last == 0 && l.snapIndex == 0 {
+				continue // joined, never part of the shard
+			}
+			voters++
+			lt := l.snapTerm
+			if e, ok := l.ents[l.last]; ok {
+				lt = e.Term
+			}
+			li := l.last
+			if l.snapIndex > li {
+				li = l.snapIndex
+			}
+			if lt > wt || (lt == wt && li >= wl.last) {
+				ahead = false
+			}
+		}
+		if !ahead || voters == 0 {
+			continue
+		}
+		for _, id := range s.order {
+			r := s.replicas[id]
+			if !r.removed {
+				continue
+			}
+			if e, ok := s.mon.log(r).ents[wl.last]; ok && e.Term == wt {
+				return false, fmt.Sprintf("witness %d holds entry %d (term %d) that no running voter has; its payload exists only on removed replica %d", wid, wl.last, wt, id)
+			}
+		}
+	}
 	return true, ""
 }
 
